@@ -83,9 +83,7 @@ package j5convert
 //@   ensures msg.descriptor.EnumType[old(len(msg.descriptor.EnumType))] == enum.desc
 //@   ensures forall i int :: 0 <= i && i < old(len(msg.descriptor.EnumType)) ==> msg.descriptor.EnumType[i] == old(msg.descriptor.EnumType[i])
 
-//@ spec func sortedStrs(s []string) bool = forall i int, j int :: 0 <= i && i < j && j < len(s) ==> s[i] <= s[j]
-//@ spec func nodupStrs(s []string) bool = forall i int, j int :: 0 <= i && i < j && j < len(s) ==> s[i] != s[j]
-//@ spec opaque inStrs(s []string, x string) bool = exists i int :: 0 <= i && i < len(s) && s[i] == x
+// (sortedStrs, nodupStrs, inStrs are defined in /verif/spec/std.spec)
 
 //@ func (*fileContext).ensureImport
 //@   requires fb != nil && fb.fdp != nil && fb.fdp.Name != nil
@@ -133,6 +131,7 @@ package j5convert
 // import, and touches nothing else of the file.
 //@ func (*conversionVisitor).setJ5Ext
 //@   opt assumed reflection
+//@   modifies G:ext:github.com/pentops/j5/gen/j5/ext/v1/ext_j5pb.E_Field F:google.golang.org/protobuf/types/descriptorpb.FileDescriptorProto.3.Dependency E:string F:github.com/pentops/j5/internal/j5s/j5convert.rootContext.2.errors E:error E:interface{}
 //@   requires fileOK(ww) && dest != nil
 //@   ensures fileOK(ww) && fileKept(ww) && importsKept(ww)
 //@   ensures known: (fieldType == "object" || fieldType == "oneof" || fieldType == "enum" || fieldType == "bool" || fieldType == "bytes" || fieldType == "float" || fieldType == "integer" || fieldType == "key" || fieldType == "string" || fieldType == "timestamp" || fieldType == "array") ==> result != nil
